@@ -91,10 +91,11 @@ class Region(abc.ABC):
                 # np.any is used for SkyCoord array comparisons
                 if np.any(getattr(self, param) != getattr(other, param)):
                     return False
-        except TypeError:
+        except (TypeError, ValueError):
             # TypeError is raised from SkyCoord comparison when they do
-            # not have equivalent frames. Here return False instead of
-            # the TypeError.
+            # not have equivalent frames and ValueError when coordinate
+            # arrays (e.g., polygon vertices) have different lengths.
+            # Here return False instead of raising.
             return False
 
         return True
